@@ -50,14 +50,14 @@ def apply(ix, ed, report):
             if rn not in vmap:
                 raise Lost("callback %s has no arm in Parser::create_node" % nm)
             ed.insert(st[f.i_attr].s, "#[verifier::external_body] ")
-            ed.insert(pos, "\n        requires Self::cb_node_ready(old(self), _node_ref.0 as int, Rule::%s),   // [C02]\n        ensures Self::cb_frame(old(self), final(self)), final(_diags)@.len() >= old(_diags)@.len(),\n    " % vmap[rn])
+            ed.insert(pos, "\n        requires Self::cb_node_ready(old(self), _node_ref.0 as int, Rule::%s),   // [C02]\n        ensures Self::cb_frame(old(self), final(self)),\n    " % vmap[rn])
             n["create_node"] += 1
         elif nm.startswith("delete_node_"):
             ed.insert(st[f.i_attr].s, "#[verifier::external_body] ")
             ed.insert(pos, "\n        ensures Self::cb_frame(old(self), final(self)),\n    ")
             n["delete_node"] += 1
         elif nm.startswith("action_"):
-            ed.insert(pos, "\n        ensures Self::cb_frame(old(self), final(self)), final(diags)@.len() >= old(diags)@.len(),\n    ")
+            ed.insert(pos, "\n        ensures Self::cb_frame(old(self), final(self)),\n    ")
             n["action"] += 1
         elif nm == "create_diagnostic":
             ed.insert(pos, "\n        requires Self::cb_span_ok(self, span),   // [C06,C12] every diagnostic span lies inside the source\n    ")
